@@ -61,6 +61,8 @@ type specMonitor struct {
 	stop     bool
 	lastSeen map[*genetics.Species]bool
 	lastPop  *genetics.Population
+	// organisms that passed the Speciated observer since the population was constructed / the epoch began
+	seen map[*genetics.Organism]bool
 }
 
 func (m *specMonitor) install(c *Ctx, opts *neat.Options) {
@@ -80,6 +82,10 @@ func (m *specMonitor) onPlaced(c *Ctx, p *genetics.Population, org *genetics.Org
 		m.maxId = 0
 	}
 	c.Eval(1)
+	if m.seen == nil {
+		m.seen = map[*genetics.Organism]bool{}
+	}
+	m.seen[org] = true
 	if m.inEpoch {
 		c.Count("placed.in_epoch", 1)
 	} else if m.sc != nil {
@@ -228,6 +234,66 @@ func (m *specMonitor) Constructed(c *Ctx, sc *EvoScenario, pop *genetics.Populat
 			m.maxId = s.Id
 		}
 	}
+	m.unobservedPlacements(c, sc, pop)
+}
+
+// unobservedPlacements looks at the organisms of a just constructed population that were put into a species without passing
+// the Speciated observer (on the unchanged tree there are none: every constructor speciates through Population.speciate).
+// For them the end state is checked, which is decidable right after construction because species are numbered in the order
+// of their foundation and a representative, once the first member, stays the first member until the first turnover: a
+// founder must not be within the threshold of the representative of a species founded earlier, and a member must be within
+// the threshold of its own representative and not farther from it than from the representative of a species founded earlier.
+func (m *specMonitor) unobservedPlacements(c *Ctx, sc *EvoScenario, pop *genetics.Population) {
+	if m.stop {
+		return
+	}
+	thr := m.opts.CompatThreshold
+	type dist struct{ ref, lib float64 }
+	near := func(d dist) bool { return math.Abs(d.ref-d.lib) <= 1e-9*math.Max(1, math.Abs(d.ref)) }
+	measure := func(a, b *genetics.Organism) dist {
+		d, _, _, _ := refCompat(geneRecs(a.Genotype), geneRecs(b.Genotype), m.opts.ExcessCoeff, m.opts.DisjointCoeff, m.opts.MutdiffCoeff)
+		return dist{d, a.Genotype.VerifCompatibility(b.Genotype, m.opts)}
+	}
+	for _, org := range pop.Organisms {
+		if m.seen[org] {
+			continue
+		}
+		c.Count("placed.without_passing_the_observer", 1)
+		c.Eval(1)
+		sp := org.Species
+		detail := map[string]interface{}{"threshold": thr, "method": string(m.opts.GenCompatMethod), "organism": genomeText(org.Genotype), "scenario": sc.brief(), "key": "end-state"}
+		if sp == nil || len(sp.Organisms) == 0 {
+			m.stop = true
+			c.Violate("no-species", detail, "organism was not assigned to any species")
+			return
+		}
+		founder := sp.Organisms[0] == org
+		var own dist
+		if !founder {
+			own = measure(org, sp.Organisms[0])
+			if !(own.ref < thr) && !(near(own) && own.lib < thr) {
+				m.stop = true
+				c.Violate("joined-incompatible", detail, "after construction species %d holds an organism whose distance to the representative is %v, not closer than the threshold %v", sp.Id, own.ref, thr)
+				return
+			}
+		}
+		for _, s := range pop.Species {
+			if s.Id >= sp.Id || len(s.Organisms) == 0 {
+				continue
+			}
+			d := measure(org, s.Organisms[0])
+			if founder && d.ref < thr && (d.lib < thr || !near(d)) {
+				m.stop = true
+				c.Violate("founded-despite-compatible", detail, "after construction the founder of species %d is at distance %v < threshold %v of the representative of species %d, which was founded earlier", sp.Id, d.ref, thr, s.Id)
+				return
+			}
+			if !founder && d.ref < own.ref && (d.lib < own.lib || !near(d) || !near(own)) {
+				m.stop = true
+				c.Violate("not-nearest", detail, "after construction species %d holds an organism at distance %v although the representative of species %d, founded earlier, is at distance %v", sp.Id, own.ref, s.Id, d.ref)
+				return
+			}
+		}
+	}
 }
 
 // PreConstruct installs the hook before the population is constructed (or restored from its written form), so that the
@@ -236,17 +302,27 @@ func (m *specMonitor) PreConstruct(c *Ctx, sc *EvoScenario) {
 	m.sc = sc
 	m.maxId = 0 // a new population numbers its species from one
 	m.inEpoch = false
+	m.seen = map[*genetics.Organism]bool{}
 	m.install(c, sc.Opts)
 }
 
 func (m *specMonitor) BeforeEpoch(c *Ctx, sc *EvoScenario, gen int, pop *genetics.Population) {
 	m.inEpoch = true
 	m.opts = sc.Opts // (the options object may have been switched for a changed copy)
+	m.seen = map[*genetics.Organism]bool{}
 }
 
 func (m *specMonitor) AfterEpoch(c *Ctx, sc *EvoScenario, gen int, pop *genetics.Population, err error) bool {
 	if m.skipped || err != nil || m.stop {
 		return false
+	}
+	for _, org := range pop.Organisms {
+		if !m.seen[org] {
+			// the representatives have changed since (the old generation was removed), the placement cannot be judged afterwards
+			c.Inconclusive("generation %d holds an organism that was put into a species without passing the Speciated observer", gen+1)
+			m.stop = true
+			return false
+		}
 	}
 	if gen == sc.Epochs-1 && c.WantSample() {
 		c.Sample(map[string]interface{}{"kind": "in-epoch speciation", "scenario": sc.brief(), "species_at_end": len(pop.Species)})
